@@ -27,7 +27,7 @@ def alphabet(d):
     for n in NUMS:
         ops.append(["limit", n])
         ops.append(["offset", n])
-    ops += [["slice", 3, 7], ["slice", None, 3], ["slice", 7, None], ["slice", 0, 0], ["slice", 7, 3]]  # q[a:b] = offset a, limit b (b < a is a valid page)
+    ops += [["slice", 3, 7], ["slice", None, 3], ["slice", 7, None], ["slice", 0, 0], ["slice", 7, 3], ["slice", 0, None]]  # q[a:b] = offset a, limit b (b < a is a valid page)
     ops += [["limit", ["lit", 4]], ["offset", ["lit", 5]]]  # the value given as a wrapped constant (a Term) instead of an int
     if d == "mssql":
         ops += [["fetch_next", 3], ["fetch_next", 0], ["top", 7]]
@@ -59,7 +59,7 @@ def model(seq):
 def chunks(tier, seed):
     out = []
     for d in fp.CTX:
-        for pos in ("top", "from_sub", "join_sub", "in_sub", "setop_operand", "setop_base_operand", "setop_chain_operand", "setop_chain_operand_union", "setop_self",
+        for pos in ("top", "cte_top", "setop_twice_operand", "from_sub", "join_sub", "in_sub", "setop_operand", "setop_base_operand", "setop_chain_operand", "setop_chain_operand_union", "setop_self",
                     "setop_self_ordered_operand"):
             for order in (False, True):
                 out.append({"d": d, "pos": pos, "order": order, "depth": 2 if tier == "quick" else 3})
@@ -69,7 +69,7 @@ def chunks(tier, seed):
 def expand(chunk):
     d = chunk["d"]
     ops = alphabet(d)
-    if chunk["pos"].startswith("setop_self") or chunk["pos"].startswith("setop_chain_operand"):
+    if chunk["pos"].startswith("setop_self") or chunk["pos"].startswith("setop_chain_operand") or chunk["pos"] == "setop_twice_operand":
         ops = [o for o in ops if o[0] in ("limit", "offset")]
     seen = set()
     for k in range(0, chunk["depth"] + 1):
@@ -247,6 +247,12 @@ def build_case(d, pos, order, seq):
     inner = {"calls": inner_calls + seq}
     if pos == "top":
         return inner
+    if pos == "cte_top":
+        # the statement starts with its CTE (the dialect class's with_() starts it); the row-limiting calls are the statement's own
+        return {"calls": [["with", "c1", {"calls": [["from", ["t", "v"]], ["select", [["f", "v", "id"]]]]}]] + inner["calls"]}
+    if pos == "setop_twice_operand":
+        # the paginated query is an operand twice (one object in shared mode)
+        return {"calls": [["from", T], ["select", [["f", "t", "b"]]], ["union_all", inner], ["union", inner]]}
     if pos == "from_sub":
         return {"calls": [["from", ["q", "s", inner, "s"]], ["select", [["f", "s", "a"]]]]}
     if pos == "join_sub":
@@ -283,6 +289,14 @@ def run_case(case):
         return res
     res.nontrivial = 1 if seq else 0
     res.states.append(h64(repr((d, pos, order, lim, off, top))))
+    sd = prog.shared_objects_diff(p, d)
+    res.transitions += 6
+    if sd is not None:
+        res.violate("C09|%s|shared-objects" % d, "the statement (or its parameter list) changes when equal operands / expressions are one shared object",
+                    program=p, **sd)
+        return res
+    if pos == "setop_twice_operand":
+        return res  # (the slots of each occurrence are covered by setop_operand; here only sharing is compared)
     lexd = "sqlite" if d == "generic" else d
     first_render = {}
     for param in (False, True, False, True):
@@ -308,7 +322,7 @@ def run_case(case):
         except LexError as e:
             res.violate("C09|%s|unlexable" % d, "SQL does not lex", program=p, sql=sql, error=str(e))
             return res
-        if pos == "top" or pos.startswith("setop_self"):
+        if pos in ("top", "cte_top") or pos.startswith("setop_self"):
             span = toks
         elif pos == "from_sub":
             span = paren_group_after(toks, "FROM")
